@@ -101,6 +101,8 @@ def run(repo, rep):
     rule_optional_quantization(repo, rep)
     rep.clause("C13-aw", "the graph walkers and debug printers of nn_graph dereference the elements of an operator's input list (None for an absent optional operand) only under a None/truth test")
     rule_input_holes(repo, rep)
+    rep.clause("C13-ax", "an operator that the optimisation driver itself creates from a subgraph's tensors (not from an operator that passed the checks) is submitted to the supported-operator check before the driver returns")
+    rule_driver_created_operators(repo, rep)
     rep.clause("C13-au", "members of an operator's (optional) options table are read with .get() or under a membership test in the reader")
     rule_option_members_optional(repo, rep)
     rep.clause("C13-aq", "the scale check rejects a tensor if any of its scales is infinite (quantifier kept under negation)")
@@ -2551,3 +2553,35 @@ def rule_input_holes(repo, rep):
                 rep.ok("C13-aw", site, f"`for {v} in {t}`", "dereferences are under a None/truth test" if deref else "the element is only passed on")
     if n < 3:
         raise AnalysisError(f"nn_graph: only {n} loops over op.inputs")
+
+
+def rule_driver_created_operators(repo, rep):
+    """`tflite_optimise_graph` runs the supported-operator check as a rewrite step; operators created later by rewrite callbacks derive
+    from an operator that passed it. An operator created in the driver's own body takes its operands from `sg.output_tensors` - tensors
+    whose data type no check has bounded (SHAPE with out_type INT64 folded to a constant that is a graph output). Typestate: every name
+    bound to `create_*()` / `Operation()` in the driver body gets `run_on_npu` assigned from `is_operator_supported(<that name>)`."""
+    m = repo.mod("tflite_graph_optimiser")
+    fn = m.func("tflite_optimise_graph")
+    if fn is None:
+        raise AnalysisError("tflite_graph_optimiser.tflite_optimise_graph not found")
+    created = {}
+    for st in ast.walk(fn):
+        if isinstance(st, ast.Assign) and len(st.targets) == 1 and isinstance(st.targets[0], ast.Name) and isinstance(st.value, ast.Call):
+            cn = call_name(st.value) or ""
+            leaf = cn.split(".")[-1]
+            if leaf == "Operation" or (leaf.startswith("create_") and not leaf.endswith("_tensor") and "tensor" not in leaf and "const" not in leaf):
+                created[st.targets[0].id] = st
+    checked = set()
+    for st in ast.walk(fn):
+        if isinstance(st, ast.Assign) and len(st.targets) == 1:
+            t = st.targets[0]
+            if isinstance(t, ast.Attribute) and t.attr == "run_on_npu" and isinstance(t.value, ast.Name) and isinstance(st.value, ast.Call):
+                if (call_name(st.value) or "").endswith("is_operator_supported") and st.value.args and str(norm(st.value.args[0])) == t.value.id:
+                    checked.add(t.value.id)
+    for name, st in sorted(created.items()):
+        site = "ethosu/vela/tflite_graph_optimiser.py:tflite_optimise_graph"
+        rep.check(name in checked, "C13-ax", site, f"`{name} = {norm(st.value)}` is followed by `{name}.run_on_npu = ..is_operator_supported({name})`",
+                  f"`{name}` is created for the NPU behind the supported-operator check with operands taken from the subgraph's outputs: an int64 constant "
+                  "(SHAPE with out_type INT64, folded, as a graph output) ends in KeyError 64 in find_block_config")
+    if not created:
+        rep.ok("C13-ax", "ethosu/vela/tflite_graph_optimiser.py:tflite_optimise_graph", "no operator is created in the driver body", "nothing to submit")
